@@ -239,7 +239,7 @@ def _read_packinfo(cur, st: Streams, findings):
         t = cur.byte()
     if sizes is None:
         if n:
-            findings.append("PackInfo: %d pack streams without sizes" % n)
+            findings.append("packinfo-no-sizes| PackInfo: %d pack streams without sizes" % n)
         sizes = [0] * n
     st.pack_sizes = sizes
     st.pack_crcs = crcs
@@ -391,7 +391,7 @@ def _read_streamsinfo(cur, findings) -> Streams:
         st.sub_crcs = [[f.crc] for f in st.folders]
     need = sum(len(f.packed_indices) for f in st.folders)
     if need != len(st.pack_sizes):
-        findings.append("NumPackStreams %d != streams the folders consume %d" % (len(st.pack_sizes), need))
+        findings.append("numpackstreams-mismatch| NumPackStreams %d != streams the folders consume %d" % (len(st.pack_sizes), need))
     return st
 
 
@@ -419,16 +419,16 @@ def decode_folder(f: Folder, packed: list, password, findings, where="") -> byte
         if len(out) > want:
             if c.method == codecs.M_AES:
                 if len(out) - want >= 16 and want:
-                    findings.append("%s7zAES output exceeds declared size by %d (>= one block)" % (where, len(out) - want))
+                    findings.append("aes-padding-too-long| %s7zAES output exceeds declared size by %d (>= one block)" % (where, len(out) - want))
             elif c.method not in (codecs.M_LZMA, codecs.M_LZMA2, codecs.M_PPMD):
-                findings.append("%scoder %s produced %d bytes, declared %d" % (where, codecs.NAMES.get(c.method, "?"), len(out), want))
+                findings.append("coder-output-size| %scoder %s produced %d bytes, declared %d" % (where, codecs.NAMES.get(c.method, "?"), len(out), want))
             out = out[:want]
         data = out
         if cur_coder not in out_to_in:
             break
         cur_coder = out_to_in[cur_coder]
     if len(seen) != len(f.coders):
-        findings.append("%snot every coder of the folder is on the decode path" % where)
+        findings.append("coder-unreachable| %snot every coder of the folder is on the decode path" % where)
     return data
 
 
@@ -451,7 +451,7 @@ def _parse_filesinfo(cur, findings, notes):
             raise RefTruncated("file property 0x%02x size %d crosses the header end" % (t, size))
         sub = _Cur(cur.buf, start, start + size)
         if t in seen and t != K_DUMMY:
-            findings.append("file property 0x%02x repeated" % t)
+            findings.append("fileprop-repeated| file property 0x%02x repeated" % t)
         seen.append(t)
         layout["props"].append(t)
         if t == K_EMPTYSTREAM:
@@ -491,12 +491,12 @@ def _parse_filesinfo(cur, findings, notes):
             body = sub.take(size)
             layout["dummy"].append(size)
             if any(body):
-                findings.append("kDummy with non-zero bytes")
+                findings.append("dummy-nonzero| kDummy with non-zero bytes")
         else:
-            findings.append("unknown file property 0x%02x" % t)
+            findings.append("fileprop-unknown| unknown file property 0x%02x" % t)
             sub.pos = sub.end
         if sub.pos != sub.end:
-            findings.append("file property 0x%02x: size field %d but %d bytes consumed" % (t, size, sub.pos - start))
+            findings.append("fileprop-size-0x%02x| file property 0x%02x: size field %d but %d bytes consumed" % (t, t, size, sub.pos - start))
         cur.pos = start + size
     if empty_stream is not None:
         j = 0
@@ -578,7 +578,7 @@ def parse(data: bytes, password: str | None = None, decode: bool = True, strict_
             raise RefError("encoded header nested too deeply")
         est = _read_streamsinfo(cur, F)
         if cur.pos != cur.end:
-            F.append("encoded header: %d bytes after End" % (cur.end - cur.pos))
+            F.append("encheader-trailing| encoded header: %d bytes after End" % (cur.end - cur.pos))
         if len(est.folders) != 1:
             raise RefError("encoded header with %d folders" % len(est.folders))
         f = est.folders[0]
@@ -591,7 +591,7 @@ def parse(data: bytes, password: str | None = None, decode: bool = True, strict_
                 raise RefTruncated("header pack stream outside file")
             blob = data[pos : pos + z]
             if est.pack_crcs[i] is not None and zlib.crc32(blob) & 0xFFFFFFFF != est.pack_crcs[i]:
-                F.append("header pack stream CRC mismatch")
+                F.append("header-packcrc| header pack stream CRC mismatch")
             packed.append(blob)
             intervals.append((pos, z, "header pack stream"))
             hdr_pack_total += z
@@ -628,7 +628,7 @@ def parse(data: bytes, password: str | None = None, decode: bool = True, strict_
     if t != K_END:
         raise RefError("End expected after header, got 0x%02x" % t)
     if cur.pos != cur.end:
-        F.append("%d bytes after the header's End" % (cur.end - cur.pos))
+        F.append("header-trailing| %d bytes after the header's End" % (cur.end - cur.pos))
     arc.streams = st
     arc.layout.update(file_props=flayout["props"], dummy=flayout["dummy"])
     # ---- wiring of files to substreams
@@ -646,7 +646,7 @@ def parse(data: bytes, password: str | None = None, decode: bool = True, strict_
                 raise RefTruncated("pack stream %d [%d,%d) outside the file" % (i, pos, pos + z))
             blob = data[pos : pos + z]
             if st.pack_crcs and st.pack_crcs[i] is not None and zlib.crc32(blob) & 0xFFFFFFFF != st.pack_crcs[i]:
-                F.append("pack stream %d CRC mismatch" % i)
+                F.append("packcrc| pack stream %d CRC mismatch" % i)
             blobs.append(blob)
             intervals.append((pos, z, "pack stream %d" % i))
             pos += z
@@ -665,19 +665,19 @@ def parse(data: bytes, password: str | None = None, decode: bool = True, strict_
             if len(mine) < npk:
                 raise RefError("folder %d needs %d pack streams, %d left" % (fi, npk, len(mine)))
             if sum(st.sub_sizes[fi]) != f.unpack_size():
-                F.append("folder %d: substream sizes sum to %d, unpack size %d" % (fi, sum(st.sub_sizes[fi]), f.unpack_size()))
+                F.append("substream-sum| folder %d: substream sizes sum to %d, unpack size %d" % (fi, sum(st.sub_sizes[fi]), f.unpack_size()))
             if decode:
                 try:
                     out = decode_folder(f, mine, password, F, "folder %d: " % fi)
                 except RefUnsupported:
                     raise
                 if f.crc is not None and zlib.crc32(out) & 0xFFFFFFFF != f.crc:
-                    F.append("folder %d: folder CRC mismatch" % fi)
+                    F.append("foldercrc| folder %d: folder CRC mismatch" % fi)
                 folder_bytes.append(out)
             else:
                 folder_bytes.append(None)
     probs = _intervals_tile(intervals, 32, hstart)
-    (F if strict_tiling else arc.notes).extend("tiling: " + p for p in probs)
+    (F if strict_tiling else arc.notes).extend("tiling| " + p for p in probs)
     # ---- members
     it = []
     if st:
@@ -694,13 +694,36 @@ def parse(data: bytes, password: str | None = None, decode: bool = True, strict_
             fi, z, crc, blob = next(it)
             m.folder, m.size, m.crc, m.data = fi, z, crc, blob
             if blob is not None and crc is not None and zlib.crc32(blob) & 0xFFFFFFFF != crc:
-                F.append("member %d (%r): CRC of decoded bytes differs from the stored CRC" % (m.index, m.name))
+                F.append("membercrc| member %d (%r): CRC of decoded bytes differs from the stored CRC" % (m.index, m.name))
         else:
             m.size = 0
             m.data = b"" if not m.is_dir else None
             if m.is_dir and m.attributes is not None and not (m.attributes & FILE_ATTRIBUTE_DIRECTORY):
                 arc.notes.append("member %d: directory by EmptyStream rule but attribute word lacks the directory bit" % m.index)
             if (not m.is_dir) and m.attributes is not None and (m.attributes & FILE_ATTRIBUTE_DIRECTORY):
-                F.append("member %d: flagged EmptyFile but attribute word says directory" % m.index)
+                F.append("emptyfile-vs-attr| member %d: flagged EmptyFile but attribute word says directory" % m.index)
     arc.members = files
     return arc
+
+
+def parse_header_bytes(hdr: bytes):
+    """Parse a raw (not encoded) Header without touching any packed data.
+    Returns (Streams|None, [Member], findings)."""
+    F = []
+    cur = _Cur(hdr)
+    if cur.byte() != K_HEADER:
+        raise RefError("not a raw header")
+    st = None
+    files = []
+    t = cur.byte()
+    if t == K_MAINSTREAMS:
+        st = _read_streamsinfo(cur, F)
+        t = cur.byte()
+    if t == K_FILES:
+        files, _ = _parse_filesinfo(cur, F, [])
+        t = cur.byte()
+    if t != K_END:
+        raise RefError("End expected after header, got 0x%02x" % t)
+    if cur.pos != cur.end:
+        F.append("header-trailing| %d bytes after the header's End" % (cur.end - cur.pos))
+    return st, files, F
